@@ -42,6 +42,7 @@ def dims(base):
         "wit0": [[72, 33], [], [1], [253]], "witrest": [[1], [], [2, 0]],
         "version": [1, 2, 2 ** 32 - 1, 0, 2 ** 31], "locktime": [0, 499999999, 2 ** 32 - 1, 1],
         "prevout0": ["normal", "null"],
+        "dupin": [False, True], "txid0kind": ["filler", "polyglot"],
         "spk0kind": ["filler", "pubkey33", "pubkey65", "p2pkh-text", "p2sh-text", "bech32-text", "bech32m-text"],
     }
     if base == "segwit":
